@@ -11,7 +11,7 @@ verus! {
 #[verifier::external_body] pub struct Formatter { _p: u8 }
 #[verifier::external_body] pub struct ForeignKeyCell { _p: u8 }   // RefCell<ForeignKey>: never entered by this function
 #[verifier::external_body] pub struct Locale { _p: u8 }
-#[verifier::external_body] pub struct Ranges { _p: u8 }
+pub use core::ops::Bound;
 #[verifier::external_body] pub struct Plurals { _p: u8 }
 
 // T1 + R2: parse_locales/mod.rs
@@ -27,18 +27,19 @@ impl StringIndexer {
 
 // T1: parsed_value.rs
 //@@ literal_enum
+//@@ range_enum
+pub type RangesInner<T> = Vec<(Range<T>, ParsedValue)>;
+//@@ untyped_enum
+//@@ ranges_struct
 //@@ parsed_value_enum
 
 /// a string literal carries an index at which the table holds its text
 pub open spec fn lit_ok(l: Literal, t: Seq<Seq<char>>) -> bool {
     match l { Literal::String(s, i) => i < t.len() && t[i as int] == s@, _ => true }
 }
-// ranges / plurals: their own index_strings (loops over their branches / forms) are not verified; assumed
-// to establish the same for every value they hold
-pub uninterp spec fn ranges_ok(r: Ranges, t: Seq<Seq<char>>) -> bool;
+// plurals: Plurals::index_strings (BTreeMap::values_mut) is not verified; assumed to establish the same for
+// every form it holds
 pub uninterp spec fn plurals_ok(p: Plurals, t: Seq<Seq<char>>) -> bool;
-pub axiom fn axiom_ranges_ok_mono(r: Ranges, t: Seq<Seq<char>>, t2: Seq<Seq<char>>)
-    requires ranges_ok(r, t), t.is_prefix_of(t2), ensures ranges_ok(r, t2);
 pub axiom fn axiom_plurals_ok_mono(p: Plurals, t: Seq<Seq<char>>, t2: Seq<Seq<char>>)
     requires plurals_ok(p, t), t.is_prefix_of(t2), ensures plurals_ok(p, t2);
 
@@ -48,7 +49,18 @@ pub open spec fn pv_ok(p: ParsedValue, t: Seq<Seq<char>>) -> bool
 {
     match p {
         ParsedValue::Literal(l) => lit_ok(l, t),
-        ParsedValue::Ranges(r) => ranges_ok(r, t),
+        ParsedValue::Ranges(r) => match r.inner {
+            UntypedRangesInner::I8(v) => forall|i: int| 0 <= i < v.len() ==> pv_ok((#[trigger] v[i]).1, t),
+            UntypedRangesInner::I16(v) => forall|i: int| 0 <= i < v.len() ==> pv_ok((#[trigger] v[i]).1, t),
+            UntypedRangesInner::I32(v) => forall|i: int| 0 <= i < v.len() ==> pv_ok((#[trigger] v[i]).1, t),
+            UntypedRangesInner::I64(v) => forall|i: int| 0 <= i < v.len() ==> pv_ok((#[trigger] v[i]).1, t),
+            UntypedRangesInner::U8(v) => forall|i: int| 0 <= i < v.len() ==> pv_ok((#[trigger] v[i]).1, t),
+            UntypedRangesInner::U16(v) => forall|i: int| 0 <= i < v.len() ==> pv_ok((#[trigger] v[i]).1, t),
+            UntypedRangesInner::U32(v) => forall|i: int| 0 <= i < v.len() ==> pv_ok((#[trigger] v[i]).1, t),
+            UntypedRangesInner::U64(v) => forall|i: int| 0 <= i < v.len() ==> pv_ok((#[trigger] v[i]).1, t),
+            UntypedRangesInner::F32(v) => forall|i: int| 0 <= i < v.len() ==> pv_ok((#[trigger] v[i]).1, t),
+            UntypedRangesInner::F64(v) => forall|i: int| 0 <= i < v.len() ==> pv_ok((#[trigger] v[i]).1, t),
+        },
         ParsedValue::Plurals(pl) => plurals_ok(pl, t),
         ParsedValue::Component { key, inner } => pv_ok(*inner, t),
         ParsedValue::Bloc(v) => forall|i: int| 0 <= i < v.len() ==> pv_ok(#[trigger] v[i], t),
@@ -64,7 +76,18 @@ pub proof fn lemma_pv_ok_mono(p: ParsedValue, t: Seq<Seq<char>>, t2: Seq<Seq<cha
     decreases p
 {
     match p {
-        ParsedValue::Ranges(r) => { axiom_ranges_ok_mono(r, t, t2); }
+        ParsedValue::Ranges(r) => { match r.inner {
+            UntypedRangesInner::I8(v) => { assert forall|i: int| 0 <= i < v.len() implies pv_ok((#[trigger] v[i]).1, t2) by { lemma_pv_ok_mono(v[i].1, t, t2); } }
+            UntypedRangesInner::I16(v) => { assert forall|i: int| 0 <= i < v.len() implies pv_ok((#[trigger] v[i]).1, t2) by { lemma_pv_ok_mono(v[i].1, t, t2); } }
+            UntypedRangesInner::I32(v) => { assert forall|i: int| 0 <= i < v.len() implies pv_ok((#[trigger] v[i]).1, t2) by { lemma_pv_ok_mono(v[i].1, t, t2); } }
+            UntypedRangesInner::I64(v) => { assert forall|i: int| 0 <= i < v.len() implies pv_ok((#[trigger] v[i]).1, t2) by { lemma_pv_ok_mono(v[i].1, t, t2); } }
+            UntypedRangesInner::U8(v) => { assert forall|i: int| 0 <= i < v.len() implies pv_ok((#[trigger] v[i]).1, t2) by { lemma_pv_ok_mono(v[i].1, t, t2); } }
+            UntypedRangesInner::U16(v) => { assert forall|i: int| 0 <= i < v.len() implies pv_ok((#[trigger] v[i]).1, t2) by { lemma_pv_ok_mono(v[i].1, t, t2); } }
+            UntypedRangesInner::U32(v) => { assert forall|i: int| 0 <= i < v.len() implies pv_ok((#[trigger] v[i]).1, t2) by { lemma_pv_ok_mono(v[i].1, t, t2); } }
+            UntypedRangesInner::U64(v) => { assert forall|i: int| 0 <= i < v.len() implies pv_ok((#[trigger] v[i]).1, t2) by { lemma_pv_ok_mono(v[i].1, t, t2); } }
+            UntypedRangesInner::F32(v) => { assert forall|i: int| 0 <= i < v.len() implies pv_ok((#[trigger] v[i]).1, t2) by { lemma_pv_ok_mono(v[i].1, t, t2); } }
+            UntypedRangesInner::F64(v) => { assert forall|i: int| 0 <= i < v.len() implies pv_ok((#[trigger] v[i]).1, t2) by { lemma_pv_ok_mono(v[i].1, t, t2); } }
+        } }
         ParsedValue::Plurals(pl) => { axiom_plurals_ok_mono(pl, t, t2); }
         ParsedValue::Component { key, inner } => { lemma_pv_ok_mono(*inner, t, t2); }
         ParsedValue::Bloc(v) => {
@@ -83,13 +106,16 @@ impl Literal {
             lit_ok(*final(self), final(strings).table()),
     { unimplemented!() }
 }
+/// every value of a branch list carries valid indices
+pub open spec fn inner_ok<T>(v: Seq<(Range<T>, ParsedValue)>, t: Seq<Seq<char>>) -> bool {
+    forall|i: int| 0 <= i < v.len() ==> pv_ok((#[trigger] v[i]).1, t)
+}
+
+// N1: hoisted nested fn of Ranges::index_strings
+//@@ ranges_inner
+
 impl Ranges {
-    #[verifier::external_body]
-    pub fn index_strings(&mut self, strings: &mut StringIndexer)
-        requires old(strings).wf(),
-        ensures final(strings).wf(), old(strings).table().is_prefix_of(final(strings).table()),
-            ranges_ok(*final(self), final(strings).table()),
-    { unimplemented!() }
+//@@ ranges_index_strings
 }
 impl Plurals {
     #[verifier::external_body]
